@@ -268,7 +268,9 @@ class Gen:
         x = r.random()
         if x < 0.45:
             ix["as"] = r.choice(["list", "tuple", "tensor"])
-        elif x < 0.7:
+        elif x < 0.6 and k == 1:
+            ix["as"] = "bare"            # the index array itself, not wrapped in a tuple
+        elif x < 0.75:
             nonneg = all(v >= 0 for a in arrs for v in a["v"])
             ix["as"] = r.choice(["i4", "i2", "i1"] + (["u1", "u4"] if nonneg else []))
         return ix
